@@ -17,7 +17,7 @@ TECHNIQUE = 'typestate over a statement CFG with exceptional edges (in-place sca
 LEVEL_TEXT = ('Crashes and hangs inside CyRK/LAPACK are out of reach. Decided: every exit of cf_radial_solver after the in-place non-dimensionalisation passes the restoring call (normal, explicit raise, and statements that may raise Python exceptions); '
               'no access to a stack array is outside its declared extent for any layer-kind combination; numeric accessors are dominated by `success`; `success` is set only on the error-free path; loops make progress; every assumption combination reaches a handler or a raise.')
 LEVEL_NOTE = ('Trusted: Cython-subset front-end incl. recorded array extents and noexcept qualifiers, CFG builder, interval rules. Restoration to "a few ulp" (x c then / c) is arithmetic, not decided. Memory leaks are outside the property.')
-EXPLANATION = 'R06.1 restore typestate; R06.2 fixed-size buffers; R06.3 success protocol; R06.4 totality of dispatch and loop progress; R06.5 LAPACK status read before reuse and before success; R06.6 array lengths checked before pointers are taken; R06.1/R06.2 additionally on the executed driver (inputs intact on every exit kind, every access within its extent); R06.7 no raw-pointer access indexed by a parameter runs before the guard that validates that parameter (check-after-use); R06.8 malformed layer structures (a layer without or with too few slices) end in a Python exception before that layer is integrated; R06.10 no loop index is narrower than its bound (no wrap-around, no endless loop); R06.9 the Python entry point hands every argument (raise_on_fail, verbose, the arrays, the per-layer flags) to the like-named parameter of the compiled driver.'
+EXPLANATION = 'R06.1 restore typestate; R06.2 fixed-size buffers; R06.3 success protocol; R06.4 totality of dispatch and loop progress; R06.5 LAPACK status read before reuse and before success; R06.6 array lengths checked before pointers are taken; R06.1/R06.2 additionally on the executed driver (inputs intact on every exit kind, every access within its extent); R06.7 no raw-pointer access indexed by a parameter runs before the guard that validates that parameter (check-after-use); R06.8 malformed layer structures (a layer without or with too few slices) end in a Python exception before that layer is integrated; R06.10 no loop index is narrower than its bound (no wrap-around, no endless loop); R06.11 no single-precision (C float) variable takes part in the arithmetic of the solver and of the scaling / unscaling of the inputs (restoration to a few ulp); R06.12 the Python entry point with many layers (around every constant its guards use) raises or stays inside its fixed-size arrays; R06.1 also with NaN scalar inputs (every isnan() test holding), both nondimensionalize settings; R06.9 the Python entry point hands every argument (raise_on_fail, verbose, the arrays, the per-layer flags) to the like-named parameter of the compiled driver.'
 
 PY_OBJECT_TYPES = ('str', 'tuple', 'list', 'dict', 'object', 'bytes')
 C_PURE = {'range', 'len', 'print', 'min', 'max', 'abs', 'int', 'float', 'isnan', 'isinf', 'isfinite', 'fabs', 'sqrt', 'cbrt', 'sin', 'cos', 'exp', 'log', 'sizeof', 'floor', 'ceil', 'pow', 'copysign', 'signbit', 'hypot', 'atan2', 'PyMem_Free', 'free',
@@ -104,6 +104,8 @@ def run(chk):
     use_before_guard_all(chk, repo)
     from .common import index_width_lint
     index_width_lint(chk, repo, 'R06.10', ['TidalPy/RadialSolver/**/*.pyx', 'TidalPy/utilities/dimensions/*.pyx'])
+    from .common import precision_lint
+    precision_lint(chk, repo, 'R06.11', ['TidalPy/RadialSolver/**/*.pyx', 'TidalPy/utilities/dimensions/*.pyx'])
     chk.floor('R06.5', 2); chk.floor('R06.6', 4); chk.floor('R06.7', 1)
     # ---- whole-driver symbolic execution (last): bounds of every array access during a complete solve; inputs restored on normal and failing exits.
     #      If the driver cannot be interpreted on a tree for which the rules above already report unlisted violations, those are the verdict; otherwise fail closed.
@@ -112,8 +114,10 @@ def run(chk):
     try:
         solver_whole.assembled(chk, repo, None, None, None, rule_bounds='R06.2')
         solver_whole.inputs_intact(chk, repo, 'R06.1')
+        solver_whole.nan_scalars(chk, repo, 'R06.1')
         solver_whole.malformed_structures(chk, repo, 'R06.8')
         solver_whole.entry_point_arguments(chk, repo, 'R06.9')
+        solver_whole.entry_point_layer_counts(chk, repo, 'R06.12')
     except AnalysisError as ex:
         known = {norm_key(e_['key']) for e_ in load_known() if e_.get('property') == 'C06' and e_.get('status') == 'known'}
         if any((not o.ok) and o.key not in known for o in chk.obls):
